@@ -450,10 +450,14 @@ def rule_providers(model):
             pre = _key_prefix(model, stat, n.targets[0].slice)
             if pre and pre.endswith('-'):
                 assigned.add(pre[:-1])
-    registered = any(isinstance(n, ast.For) and
-                     norm(n.iter) == 'statistic_names' and
-                     'special_prefixes' in ast.unparse(n)
-                     for n in sv.node.body)
+    def _names(n):
+        return {x.id for x in ast.walk(n) if isinstance(x, ast.Name)}
+    registered = any(
+        not isinstance(n, (ast.FunctionDef, ast.ClassDef)) and
+        {'statistic_names', 'special_prefixes'} <= _names(n) and any(
+            isinstance(x, (ast.For, ast.comprehension)) and
+            norm(x.iter) == 'statistic_names' for x in ast.walk(n))
+        for n in sv.node.body)
     r.instance('DT_InSV:sequence_variables', f'statistics: {sorted(names)}',
                'registered' if registered else 'NOT registered')
     if not registered:
